@@ -143,6 +143,23 @@ func memberMatches(t reflect.Type, params fieldParameters, tal tagAndLen) bool {
 	if params.tagNumber != nil {
 		return *params.tagNumber == tal.tagNumber
 	}
+	for t.Kind() == reflect.Ptr {
+		t = t.Elem()
+	}
+	if t.Kind() == reflect.Struct && t.NumField() > 0 {
+		switch t.Field(0).Name {
+		case "Value", "List":
+			return memberMatches(t.Field(0).Type, params, tal)
+		case "Present":
+			// an untagged CHOICE is encoded as its selected alternative
+			for i := 1; i < t.NumField(); i++ {
+				if memberMatches(t.Field(i).Type, parseFieldParameters(t.Field(i).Tag.Get("ber")), tal) {
+					return true
+				}
+			}
+			return false
+		}
+	}
 	tag, ok := universalTagOf(t, params)
 	return ok && tal.class == ClassUniversal && tag == tal.tagNumber
 }
@@ -265,9 +282,7 @@ func ParseField(v reflect.Value, bytes []byte, params fieldParameters) error {
 				}
 
 				for i := 1; i < structType.NumField(); i++ {
-					if structParams[i].tagNumber == nil {
-						// TODO: choice type with a universal tag
-					} else if *structParams[i].tagNumber == tal.tagNumber {
+					if memberMatches(structType.Field(i).Type, structParams[i], tal) {
 						present = i
 						break
 					}
